@@ -117,13 +117,18 @@ class SandboxNativeTracer(SandboxBasicTracer):
         self.call_stack = []
         self.lines = []
         self.old_tracer = None
+        self._old_tracers = []
         self.step_index = 1
 
     def __enter__(self):
+        # The same tracer is re-entered when student code imports another
+        # student file, so the previous trace functions are kept on a stack
         self.old_tracer = sys.gettrace()
+        self._old_tracers.append(self.old_tracer)
         sys.settrace(self.tracer)
 
     def __exit__(self, exc_type, exc_val, traceback):
+        self.old_tracer = self._old_tracers.pop() if self._old_tracers else None
         sys.settrace(self.old_tracer)
 
     def is_tracked_file(self, frame):
@@ -164,6 +169,7 @@ class SandboxCallTracer(SandboxBasicTracer, Bdb):
     def __init__(self):
         super().__init__()
         self.calls = {}
+        self._old_traces = []
 
     def user_call(self, frame, argument_list):
         """
@@ -180,10 +186,13 @@ class SandboxCallTracer(SandboxBasicTracer, Bdb):
 
     def __enter__(self):
         self.reset()
+        # Re-entered for nested imports of student files, hence a stack
         self._old_trace = sys.gettrace()
+        self._old_traces.append(self._old_trace)
         sys.settrace(self.trace_dispatch)
 
     def __exit__(self, exc_type, exc_val, traceback):
+        self._old_trace = self._old_traces.pop() if self._old_traces else None
         sys.settrace(self._old_trace)
         self.quitting = True
         # Return true to suppress exception (if it is a BdbQuit)
